@@ -20,7 +20,7 @@ from ..gen import c11_gen as GEN
 
 PID = "C11"
 COQ_HEADER = ("From Coq Require Import List NArith ZArith.\nImport ListNotations.\n"
-              "From SK Require Import lib.Tok lib.LGraph model.C11_Model model.C11_State model.C11_Partial model.C11_Keys model.C11_Attr model.C11_Orbit model.C11_Order model.C11_SigObs.\nLocal Open Scope N_scope.\n")
+              "From SK Require Import lib.Tok lib.LGraph model.C11_Model model.C11_State model.C11_Partial model.C11_Keys model.C11_Attr model.C11_Orbit model.C11_Order model.C11_SigObs model.C11_Views.\nLocal Open Scope N_scope.\n")
 SHARD = 100
 IMPL_TIMEOUT = 300      # the stage takes 7 s on 16 idle cores (40 CPU-s); a lost pool worker ends it after this bound, not later
 COQ_TIMEOUT = 300       # per shard of 100 cases (8 CPU-s at most since the cases are dealt round-robin)
@@ -41,7 +41,7 @@ EXPLANATION = ("Exhaustive sub-space (both tiers): every labelled graph up to is
                "Everything else is seeded random / "
                "corpus sampling.  Theorems (coq/props/C11.v, all closed under the global context): C11_vocabulary, C11_aut_count, C11_aut_group, "
                "C11_vf2_contract, C11_vf2_contract_items, C11_orbits_exact, C11_orbits_partition, C11_components, C11_anchors, C11_object_state, C11_wl_never_splits, C11_wl_partition, C11_wfb_sound, "
-               "C11_dedup_sublist, C11_dedup_first_of_class, C11_dedup_idempotent, C11_partial_prune, C11_partial_prune_hosts, C11_prune_complete, C11_rep_ok, C11_prune_complete_aut, C11_prune_first_of_class, C11_prune_same_results, C11_configured_labels_only, C11_key_options, C11_rule_labels, C11_orbit_accuracy, C11_aut_observable, C11_wl_never_splits_reported, C11_orbit_accuracy_all, C11_orbit_order.")
+               "C11_dedup_sublist, C11_dedup_first_of_class, C11_dedup_idempotent, C11_partial_prune, C11_partial_prune_hosts, C11_prune_complete, C11_rep_ok, C11_prune_complete_aut, C11_prune_first_of_class, C11_prune_same_results, C11_configured_labels_only, C11_key_options, C11_rule_labels, C11_orbit_accuracy, C11_aut_observable, C11_wl_never_splits_reported, C11_orbit_accuracy_all, C11_orbit_order, C11_views.")
 TRUSTED_BASE = [
     "Coq 8.16.1 kernel + vm_compute (no native_compute)",
     "hand-written model coq/model/C11_Model.v tied to synkit/Graph/Matcher/{automorphism,auto_est,dedup_matches}.py and the pruning call of "
@@ -222,6 +222,27 @@ def _oa_obs(approx, exact, confusion=True):
     out.append(_frac(m["purity"], n or 1))
     out.append(_frac(m["pairwise_accuracy"], n * (n - 1) // 2) if n >= 2 else [1, 1])
     return out
+
+
+def _impl_views(case):
+    """the remaining public views (model/C11_Views.v): anchor_largest_component=False, is_connected, len, and
+    AutoEst.components(nodes) / orbit_components(nodes) for several node subsets (ValueError = [1])"""
+    from synkit.Graph.Matcher.automorphism import Automorphism
+    from synkit.Graph.Matcher.auto_est import AutoEst
+    G = GG.to_nx(case["g"])
+    A = Automorphism(G, anchor_largest_component=False)
+    anchor = A.anchor_component
+    est = AutoEst(G).fit()
+    subs = []
+    for sub in case["subsets"]:
+        row = []
+        for f in (est.components, est.orbit_components):
+            try:
+                row.append([0, [S(sorted(c)) for c in f(None if sub is None else list(sub))]])
+            except ValueError:
+                row.append([1])
+        subs.append(row)
+    return [[] if anchor is None else [S(sorted(anchor))], A.n_automorphisms, A.is_connected, len(A), subs]
 
 
 def _impl_aut(case):
@@ -429,7 +450,7 @@ def _sig_obs(case):
                 hr = mk(horbs)
                 fs = fsp(m, free, hr) if use_pattern else fsh(m, hr)
                 parts = [[list(a), list(b)] for a, b in fs] if use_pattern else [[[], list(fs[0])]]
-                sg.append([[parts, [[a, b] for a, b in asig(m, anchored)]]])
+                sg.append([[parts, [list(x) if isinstance(x, (tuple, list)) else [x] for x in asig(m, anchored)]]])
             except ValueError:
                 sg.append([])
         out.append([[[list(o) for o in free], list(anchored)], sg])
@@ -753,6 +774,8 @@ def impl(case):
         return _aut_obs_keys(GG.to_nx(case["g"]), case["nk"], case["ek"])
     if k == "orbacc":
         return _oa_obs(case["A"], case["E"])
+    if k == "views":
+        return _impl_views(case)
     if k == "prune":
         return _impl_prune(case)    # + rule centre well-formed, matches defined on its nodes, every raw match represented
     raise AssertionError(k)
@@ -845,6 +868,10 @@ def coq_case(case):
         return _coq_hist(case)
     if k == "keys":
         return _coq_keys(case["g"], case["nk"], case["ek"]) if _in_domain(case["g"]) else None
+    if k == "views":
+        if not _in_domain(case["g"]):
+            return None
+        return "run_views %s %s" % (_coq_graph(case["g"]), clist([copt(None if sub is None else clist([cN(x) for x in sub])) for sub in case["subsets"]]))
     if k == "orbacc":
         part = lambda P: clist([clist([cN(x) for x in o]) for o in P])
         return "run_orbit_accuracy %s %s" % (part(case["A"]), part(case["E"]))
@@ -1205,6 +1232,8 @@ def oracle(case):
         return _oracle_hist(case)[:3]
     if k == "keys":
         return _oracle_aut_g(case["g"], case["nk"], ek=case["ek"])[:3]
+    if k == "views":
+        return []            # derived views of the two classes, not named by the property (correspondence only)
     if k == "orbacc":
         return []            # orbit.py measures the estimate; the property says nothing about the metrics (correspondence only)
     if k == "prune":
@@ -1283,6 +1312,8 @@ def nontrivial(case, obs):
         return len(case["steps"]) >= 2
     if k == "orbacc":
         return obs[0] == 0 and len(case["A"]) >= 2
+    if k == "views":
+        return len(case["g"]["nodes"]) >= 2
     if k == "keys" or case.get("attr"):
         return obs[0][0] > 1 or any(len(o) >= 2 for o in obs[2][1])
     if k == "dedup":
@@ -1314,6 +1345,9 @@ def distribution(cases, obss):
             continue
         if c["kind"] == "hist":
             bump(d["hist_scripts"], "%s/%d steps" % (c["script"], len(c["steps"])))
+            continue
+        if c["kind"] == "views":
+            bump(d.setdefault("views", {}), "connected" if o[2] else "disconnected")
             continue
         if c["kind"] == "orbacc":
             bump(d.setdefault("orbit_accuracy", {}), "ValueError" if o[0] == 1 else ("perfect" if o[4][0] == o[4][1] else "imperfect"))
